@@ -14,11 +14,14 @@ pub const COMMON_ASSUMPTIONS: &[&str] = &[
 ];
 
 pub mod c01;
+pub mod c02;
 pub mod c07;
 
 pub fn all() -> Vec<Prop> {
     vec![
         c01::prop(),
+        c02::prop_c02(),
+        c02::prop_c03(),
         c07::prop(),
     ]
 }
